@@ -77,6 +77,7 @@ class Engine(object):
         self.concretize_divisors = False
         self.uf_division = False
         self.hash_concretize = False
+        self.known_noted = {}
         self.concretize_shapes = False
 
     # -- exploration ---------------------------------------------------------
@@ -352,6 +353,24 @@ class Engine(object):
         self._record_cex(m, label, case)
         raise PathAbort()
 
+    def note_known(self, cond, label, case=None):
+        """If `cond` (a listed known-finding input class that violates the property) is reachable on
+        this path, record one model of it (replayed and classified by the harness); the path goes on
+        under the assumption that the class is excluded."""
+        term = z3.simplify(_bool_term(cond))
+        if z3.is_false(term):
+            return False
+        if self.known_noted.get(label, 0) < 2 and self._check(term):
+            m = self._small_model(term)
+            ev = ModelEval(m)
+            builder = case or self.case_builder
+            c = builder(ev) if builder else {}
+            self.cex.append({'label': label, 'case': c, 'known_candidate': True})
+            self.known_noted[label] = self.known_noted.get(label, 0) + 1
+            self.stats.inc('sat')
+        self.assume(SymBool(z3.Not(term)))
+        return True
+
     def fail(self, label, case=None):
         """The real code misbehaved on this (feasible) path."""
         self.stats.inc('obligations')
@@ -368,7 +387,7 @@ class Engine(object):
         builder = case or self.case_builder
         c = builder(ev) if builder else {n: ev(t) for n, t in self.inputs}
         self.cex.append({'label': label, 'case': c})
-        if len(self.cex) >= self.max_cex:
+        if len([c for c in self.cex if not c.get('known_candidate')]) >= self.max_cex:
             raise StopExploration()
 
     def reachable(self):
